@@ -1,4 +1,5 @@
 import EG.Step
+import EG.Build
 import EG.Trav
 import EG.Single
 /-
@@ -261,6 +262,58 @@ def step (st : DState) (line : String) : DState × String :=
   match toks with
   | [] => (st, "")
   | ["reset"] => ({}, "ok")
+  | ["adjdict", cls, body] =>
+    match LCls.ofString? cls with
+    | none => bad
+    | some c =>
+      let rows := if body == "." then some [] else (body.splitOn ";").mapM fun r =>
+        match r.splitOn ":" with
+        | [k, vs] => do
+          let k ← parseId 'V' k
+          let vs ← parseListWith (parseId 'V') vs
+          pure (k, vs)
+        | _ => none
+      match rows with
+      | none => bad
+      | some adj =>
+        if c.kind == .nary || !(adj.all fun (k, vs) => w.vOK k && vs.all w.vOK) then bad else
+        match C.loadAdjDict M.prims w c adj with
+        | .error e => (st, errLine e)
+        | .ok (w', u) => ({ st with w := w' }, s!"ok V{u}")
+  | ["adjmat", cls, verts, rows] =>
+    match LCls.ofString? cls, parseListWith (parseId 'V') (if verts == "." then "" else verts) with
+    | some c, some vs =>
+      let matrix : List (List Bool) :=
+        if rows == "." then [] else (rows.splitOn "/").map fun r => r.toList.map (· == '1')
+      if c.kind == .nary || !(vs.all w.vOK) then bad else
+      match C.loadAdjMatrix M.prims w c matrix vs with
+      | .error e => (st, errLine e)
+      | .ok (w', u) => ({ st with w := w' }, s!"ok V{u}")
+    | _, _ => bad
+  | ["randgraph", count, cls, conn, ens, draws] =>
+    match count.toNat?, LCls.ofString? cls with
+    | some count, some c =>
+      let conn? : Option (Option (Nat × Nat)) :=
+        if conn == "-" then some none else
+          match conn.splitOn "/" with
+          | [p, q] => do pure (some ((← p.toNat?), (← q.toNat?)))
+          | _ => none
+      let ds : Option (List C.Draw) :=
+        if draws == "." then some [] else (draws.splitOn ";").mapM fun d =>
+          match d.splitOn ":" with
+          | [r, smp] => do
+            let r ← r.toNat?
+            let smp ← parseListWith String.toNat? smp
+            pure { r := r, sample := smp }
+          | _ => none
+      match conn?, ds with
+      | some conn, some ds =>
+        if c.kind == .nary then bad else
+        match C.randgraph M.prims w count c conn (ens == "1") ds with
+        | .error e => (st, errLine e)
+        | .ok (w', u) => ({ st with w := w' }, s!"ok V{u}")
+      | _, _ => bad
+    | _, _ => bad
   | ["tsnew", c, a] =>
     match parseId 'C' c, parseId 'A' a with
     | some c, some a =>
